@@ -343,6 +343,9 @@ def mk_cast(a, to):
 
 
 def mk_call(model, args, ty):
+    if model in ('count_ones', 'count_zeros', 'leading_zeros', 'trailing_zeros') and len(args) == 1 and args[0][0] == 'c':
+        from .models import conc_intfn
+        return C(conc_intfn(model, args[0][1], args[0][2]), ty)
     return mk('call', model, tuple(args), ty)
 
 
@@ -678,6 +681,7 @@ class Exec:
         self.merger = Merger()
         self.max_tokens = None             # bound on symbolic token iteration (recorded in .bounded when hit)
         self.self_stack = []
+        self.extra_guard = []              # conditions under which a model is currently applying a closure
         self.const_env = [{}]
         self.reductions = []               # (caller key, kind, init, closure, items) recorded by the fold model
         self.bounded = []
@@ -985,6 +989,10 @@ class Exec:
             return self.conv_const(val, o['ty'])
         raise Uncertified("operand kind %s" % k)
 
+    def gs(self, st):
+        """guard stack for an obligation recorded now"""
+        return st.gstack + tuple(self.extra_guard)
+
     def cur_self_ty(self):
         return self.self_stack[-1] if self.self_stack else None
 
@@ -1078,7 +1086,7 @@ class Exec:
             a = self.operand(st, fid, rv['op'])
             kind = rv['kind']
             to = pdb.ty(rv['ty'])
-            if kind.startswith('PointerCoercion') or kind in ('PtrToPtr',):
+            if kind.startswith('PointerCoercion') or kind in ('PtrToPtr', 'FnPtrToPtr'):
                 return a
             if kind in ('IntToInt', 'IntToFloat', 'FloatToInt', 'FloatToFloat'):
                 if a[0] == 'agg' and a[1][0] == 'adt':
@@ -1270,7 +1278,7 @@ class Exec:
             guard, st = self.merger.merge(alts)
             if bb in cfg.must_panic:
                 line = blocks[bb]['term'].get('line')
-                self.obligations.append(Obligation(key, line, 'explicit panic (assert!/panic!/unwrap)', FALSE, st.gstack + guard, None, tuple(self.fn_stack)))
+                self.obligations.append(Obligation(key, line, 'explicit panic (assert!/panic!/unwrap)', FALSE, self.gs(st) + guard, None, tuple(self.fn_stack)))
                 continue
             self.fuel -= 1
             if self.fuel < 0:
@@ -1299,7 +1307,7 @@ class Exec:
                     cond = self.operand(st, fid, t['cond'])
                     want = cond if t['expected'] else mk_not(cond)
                     ops = [self.operand(st, fid, o) for o in t['ops']]
-                    self.obligations.append(Obligation(key, t['line'], t['kind'], want, st.gstack + guard, ops, tuple(self.fn_stack)))
+                    self.obligations.append(Obligation(key, t['line'], t['kind'], want, self.gs(st) + guard, ops, tuple(self.fn_stack)))
                     pending.setdefault(t['target'], []).append((guard, st))
                 elif k == 'call':
                     saved = st.gstack
@@ -1386,6 +1394,13 @@ class Exec:
         fid = ctx['fid']
         fop = t['func']
         if fop['k'] != 'const' or 'fn' not in fop:
+            # call through a function pointer / fn item held in a local
+            fv = self.operand(st, fid, fop)
+            if fv[0] == 'fnref' and fv[3] and self.pdb.has_fn(fv[1]):
+                args = [self.operand(st, fid, a) for a in t['args']]
+                ret, st2 = self.call_fn(st, fv[1], args, fv[2], ctx['depth'] + 1)
+                self.write_place(st2, fid, t['dest'], ret)
+                return st2
             raise Uncertified("indirect call in %s" % ctx['key'])
         f = fop['fn']
         args = [self.operand(st, fid, a) for a in t['args']]
